@@ -131,7 +131,7 @@ def eval_add(rel, absolute, supplied=None):
         arg = os.path.join(tmp, rel) if absolute else rel
         r = call(ti.checksums.add, arg, "sha256", supplied, tmp)
         table = {k.replace(tmp, "<root>"): list(v) for k, v in ti.checksums.checksums.items()}
-        want = {} if absolute else {norm(rel): ["sha256", supplied or hashlib.sha256(files[norm(rel)]).hexdigest()]}
+        want = {} if absolute else {norm(rel): ["sha256", supplied or hashlib.sha256(files[norm(rel)]).hexdigest()]}     # ('' = compute)
         return {"result": "ok" if r[0] == "ok" else r[1], "keys": sorted(table), "table_is_expected": table == want}
     finally:
         shutil.rmtree(tmp, ignore_errors=True)
@@ -191,7 +191,7 @@ def eval_legacy_section(paths):
 # ---- (iii) add_checksum histories --------------------------------------------------------------
 
 VALUES = ["x" * 64, "y" * 64, "", None]
-CTYPES = ["sha256", "md5"]
+CTYPES = ["sha256", "md5", "SHA256"]
 
 
 def eval_add_checksum(hist):
@@ -279,7 +279,7 @@ def run_unit(unit, acc):
                     acc.nontriv((size, algo, j, s))
         acc.sample({"size": sizes[-1], "algorithm": algo, "read_schedule": "read #1 returns 1 byte"}, limit=2)
     elif k == "paths":
-        for rel, supplied in [(r, None) for r in REL_PATHS + REL_PATHS_LINK] + [(r, "5" * 64) for r in REL_PATHS]:
+        for rel, supplied in [(r, None) for r in REL_PATHS + REL_PATHS_LINK] + [(r, "5" * 64) for r in REL_PATHS] + [(r, "") for r in REL_PATHS[:3]]:
             o = eval_add(rel, False, supplied)
             acc.ev()
             if o != {"result": "ok", "keys": [norm(rel)], "table_is_expected": True}:
@@ -376,8 +376,8 @@ def describe(tier):
                 "md5/sha1/sha256/sha512/blake2b, two for the others), oracle = hashlib one-shot digest (variable-length algorithms: "
                 "refusal or nothing recorded); Checksums.add over 8 relative path spellings (incl. 'x/../' through a symlinked directory) and absolute paths; every digest call is preceded by hashing another file with the same algorithm; (ii) every ordered "
                 "[checksums] section of <= %d entries over 9 value shapes (typed sha256/md5, bare 32/40/64, bare 8, bare 65, a:b:c, "
-                "empty): each path maps to the type/value on its own line or the load raises; (iii) all 8^1..8^4 add_checksum histories "
-                "over 2 types x {x, y, '', None}.  Non-trivial: size >= 2^20-1, a path spelling, a multi-entry section, a history of >= 2 calls."
+                "empty): each path maps to the type/value on its own line or the load raises; (iii) all add_checksum histories of <= 4 calls "
+                "over 3 type spellings (sha256, md5, SHA256) x {x, y, '', None}.  Non-trivial: size >= 2^20-1, a path spelling, a multi-entry section, a history of >= 2 calls."
                 % (SIZES if tier == "thorough" else SIZES[:8], 2 if tier == "quick" else 3),
         "bound": "one short read per file; sections <= %d entries; histories <= 4 calls" % (2 if tier == "quick" else 3),
         "exhaustive": True,
